@@ -1229,7 +1229,8 @@ class TimeDateTime(TimeFormat):
     @classmethod
     def _from_jds(cls, jd1, jd2, scale=None):
         try:
-            return np.array([cls._jd2dt(j1, j2) for j1, j2 in zip(jd1, jd2)])
+            # dtype given: an array without epochs is an array of datetimes too (not float64)
+            return np.array([cls._jd2dt(j1, j2) for j1, j2 in zip(jd1, jd2)], dtype=object)
         except TypeError:
             return cls._jd2dt(jd1, jd2)
 
